@@ -86,7 +86,7 @@ func (p *pool) segments(s, e time.Time, key string) (prices []*big.Int, ms []int
 }
 
 func TestPropTwap(t *testing.T) {
-	drv.Check(t, drv.Cfg{Name: "twap", Rule: rule, Quick: 200, Thorough: 10000, Steps: 35, TSteps: 70}, func(rt *rapid.T, cs *drv.Case) {
+	drv.Check(t, drv.Cfg{Name: "twap", Rule: rule, Quick: 200, Thorough: 4000, Steps: 35, TSteps: 70}, func(rt *rapid.T, cs *drv.Case) {
 		c := chain.New(t)
 		tk := c.App.TwapKeeper
 		huge := int64(1 << 60)
